@@ -129,5 +129,9 @@ func TransportPrivateData(pkt *packet.Packet) ([]byte, error) {
 	}
 	dataLength := uint8(pkt[offset])
 	offset++
+	if offset+int(dataLength) > packet.PacketSize {
+		// transport_private_data_length points past the end of the packet
+		return nil, gots.ErrInvalidPacketLength
+	}
 	return pkt[uint8(offset) : uint8(offset)+dataLength], nil
 }
